@@ -350,6 +350,7 @@ def check(modname, argv):
     seed = int(os.environ.get("VERIF_SEED", "20260930"))
     t0 = time.time()
     sys.path.insert(0, os.path.join(ROOT, "harness"))
+    sys.path.insert(0, REPO)          # the library is always imported from the tree under test
     mod = importlib.import_module(modname)
     pid = mod.PID
     os.chdir(ROOT)
@@ -395,7 +396,15 @@ def check(modname, argv):
         ncorpus = len(descs)
         search = bool(problems)
         descs += list(mod.cases("thorough" if search and tier == "quick" else tier, rng))
+        # the anchored source differs from the tree the model was written against: explore more on this run
+        import fingerprints
+        src_changed = fingerprints.changed(pid, REPO)
+        if src_changed and not search and tier == "quick":
+            for extra in (1, 2):
+                descs += list(mod.cases(tier, random.Random(seed * 1000003 + extra)))
     corpus_n = 0 if args.replay else ncorpus
+    if args.replay:
+        src_changed = []
     impl_out = run_impl(modname, descs)
     mq, sq, idx = [], [], []
     for i, d in enumerate(descs):
@@ -483,6 +492,7 @@ def check(modname, argv):
             "samples": samples(descs, impl_out, model_out, spec_out, rng),
             "input_distribution": kinds,
             "corpus_replayed": corpus_n,
+            "anchored_files_changed_since_baseline": src_changed,
             "model_vs_impl_disagreements_in_domain": len(viol),
             "out_of_domain_differences_logged": len(infos),
             "harness_errors": len(harness_errors),
